@@ -455,8 +455,20 @@ func (ex *Exec) applyCall(st *State, fr *Frame, c *ssa.CallCommon, fc *FuncContr
 			ex.usedPolicy(full, pol)
 			return freshResults()
 		default:
+			if sc := c.StaticCallee(); sc != nil && sc.Signature.Recv() != nil && len(args) > 0 && w.CS.Opaque != nil {
+				rt := strings.TrimPrefix(types.TypeString(sc.Signature.Recv().Type(), nil), "*")
+				if w.CS.Opaque[rt] {
+					// a method of an opaque type: it may use its receiver, so the receiver must not be nil
+					ex.safety(st, "nil-receiver", pos, Not(Eq(args[0], TNil)))
+					ex.usedPolicy(full, "opaque")
+					w.heapHavocAll(st.heap)
+					ex.reassumeStable(st)
+					return freshResults()
+				}
+			}
 			ex.uncontracted[full]++
 			w.heapHavocAll(st.heap)
+			ex.reassumeStable(st)
 			st.trace = append(st.trace, fmt.Sprintf("%s: uncontracted call %s (heap havoced)", w.posStr(pos), full))
 			return freshResults()
 		}
@@ -545,6 +557,7 @@ func (ex *Exec) applyCall(st *State, fr *Frame, c *ssa.CallCommon, fc *FuncContr
 	env.old = old
 	if fc.HavocAll {
 		w.heapHavocAll(st.heap)
+		ex.reassumeStable(st)
 	}
 	ex.implLockgen = fc.Kind != "extern"
 	ex.curCall, ex.curNames = c, names
@@ -1184,4 +1197,23 @@ func (ex *Exec) protoGetter(st *State, c *ssa.CallCommon, args []Term) (Term, bo
 		return Ite(Eq(args[0], TNil), ex.w.Zero(f.Type()), v), true
 	}
 	return Term{}, false
+}
+
+// reassumeStable: after a call that havocs the whole heap, the representation
+// invariants the function declared `stable` are assumed to hold again (every
+// callee is assumed to preserve them; listed in the evidence as an assumption).
+func (ex *Exec) reassumeStable(st *State) {
+	if len(ex.fc.Stable) == 0 || len(st.frames) != 1 {
+		return
+	}
+	env := ex.contractEnv(st, ex.entry)
+	for _, c := range ex.fc.Stable {
+		cv, err := env.Eval(c.Expr)
+		if err != nil {
+			ex.aborted = fmt.Sprintf("%s:%d: stable: %v", c.File, c.Line, err)
+			return
+		}
+		st.assume(cv.T)
+		ex.w.Note("ASSUMED stable across calls in " + ex.fn.Name() + ": " + c.Src)
+	}
 }
